@@ -621,7 +621,7 @@ func c02Unlink(p *Prog, r *Report) {
 			continue
 		}
 		info := fi.Pkg.TypesInfo
-		f := p.FlatOf(fi)
+		f := p.FlatInl(fi)
 		// node variables assigned from pops; pops handed straight to an unlinking call
 		popVars := map[types.Object]bool{}
 		var popNodes []int
@@ -659,55 +659,103 @@ func c02Unlink(p *Prog, r *Report) {
 			continue
 		}
 		// direct unlink: n.DeleteLink() in the body; or collected: slice = append(slice, n) and a deferred closure ranges the slice calling DeleteLink
-		collectors := map[types.Object]bool{}
+		// collectors are named by storage path (UpdateTx's freeNodes, or d.nodes of a state struct filled by an
+		// inlined helper)
+		collectors := map[string]bool{}
 		// where the collector is drained: a deferred closure (node of the DeferStmt) or a loop in the body (node of its range expression)
-		drainDefer := map[types.Object][]ast.Node{}
-		drainBody := map[types.Object][]ast.Node{}
-		ast.Inspect(fi.Decl.Body, func(x ast.Node) bool {
-			// a loop (in a deferred closure or in the body) that ranges a slice and unlinks each element
-			var scope ast.Node = x
-			var deferStmt ast.Node
-			if _, isRange := x.(*ast.RangeStmt); !isRange {
-				deferStmt = x
-				ds, ok := x.(*ast.DeferStmt)
-				if !ok {
-					return true
-				}
-				lit, ok := ds.Call.Fun.(*ast.FuncLit)
-				if !ok {
-					return true
-				}
-				scope = lit.Body
+		drainDefer := map[string][]ast.Node{}
+		drainBody := map[string][]ast.Node{}
+		// drainsParam: a helper of the package that ranges one of its slice parameters and unlinks every element
+		drainsParam := func(h *FuncInfo, idx int) bool {
+			po := paramObjs(h)[idx]
+			if po == nil || h.Decl == nil || h.Decl.Body == nil {
+				return false
 			}
-			ast.Inspect(scope, func(y ast.Node) bool {
-				rs, ok := y.(*ast.RangeStmt)
-				if !ok || rs.Value == nil {
-					return true
+			hinfo := h.Pkg.TypesInfo
+			found := false
+			for _, rs := range rangeLoops(h.Decl.Body) {
+				if rs.Value == nil || objOf(hinfo, rs.X) != po {
+					continue
 				}
-				vobj := objOf(info, rs.Value)
-				unlinks := false
+				vobj := objOf(hinfo, rs.Value)
 				ast.Inspect(rs.Body, func(z ast.Node) bool {
-					if c, ok := z.(*ast.CallExpr); ok && unl.CallUses(fi, c, func(e ast.Expr) bool { return vobj != nil && objOf(info, e) == vobj }) {
-						unlinks = true
+					if c, ok := z.(*ast.CallExpr); ok && unl.CallUses(h, c, func(e ast.Expr) bool { return vobj != nil && objOf(hinfo, e) == vobj }) {
+						found = true
 					}
 					return true
 				})
-				if unlinks {
-					if o := objOf(info, rs.X); o != nil {
-						collectors[o] = true
-						if deferStmt != nil {
-							if _, isD := deferStmt.(*ast.DeferStmt); isD {
-								drainDefer[o] = append(drainDefer[o], deferStmt)
-							}
-						} else {
-							drainBody[o] = append(drainBody[o], rs.X)
+			}
+			return found
+		}
+		scopes := []ast.Node{fi.Decl.Body}
+		seenBody := map[string]bool{}
+		for _, ii := range f.Inl {
+			if h := p.Func(ii.Callee); h != nil && h.Decl != nil && h.Decl.Body != nil && !seenBody[ii.Callee] {
+				seenBody[ii.Callee] = true
+				scopes = append(scopes, h.Decl.Body)
+			}
+		}
+		for _, top := range scopes {
+			ast.Inspect(top, func(x ast.Node) bool {
+				// a loop (in a deferred closure or in the body) that ranges a slice and unlinks each element
+				var scope ast.Node = x
+				var deferStmt ast.Node
+				if _, isRange := x.(*ast.RangeStmt); !isRange {
+					deferStmt = x
+					ds, ok := x.(*ast.DeferStmt)
+					if !ok || top != ast.Node(fi.Decl.Body) {
+						return true
+					}
+					lit, ok := ds.Call.Fun.(*ast.FuncLit)
+					if !ok {
+						return true
+					}
+					scope = lit.Body
+				}
+				note := func(cp string, at ast.Expr) {
+					if cp == "" {
+						return
+					}
+					collectors[cp] = true
+					if deferStmt != nil {
+						if _, isD := deferStmt.(*ast.DeferStmt); isD {
+							drainDefer[cp] = append(drainDefer[cp], deferStmt)
 						}
+					} else {
+						drainBody[cp] = append(drainBody[cp], at)
 					}
 				}
+				ast.Inspect(scope, func(y ast.Node) bool {
+					if c, ok := y.(*ast.CallExpr); ok && deferStmt != nil {
+						// the deferred closure hands the collector to a helper that unlinks every element
+						if h := p.staticCallee(fi.Pkg, c); h != nil && h.Pkg == fi.Pkg {
+							for i, a := range argExprs(c, h) {
+								if i >= 0 && drainsParam(h, i) {
+									note(f.CanonPath(a), a)
+								}
+							}
+						}
+					}
+					rs, ok := y.(*ast.RangeStmt)
+					if !ok || rs.Value == nil {
+						return true
+					}
+					vobj := objOf(info, rs.Value)
+					unlinks := false
+					ast.Inspect(rs.Body, func(z ast.Node) bool {
+						if c, ok := z.(*ast.CallExpr); ok && unl.CallUses(fi, c, func(e ast.Expr) bool { return vobj != nil && objOf(info, e) == vobj }) {
+							unlinks = true
+						}
+						return true
+					})
+					if unlinks {
+						note(f.CanonPath(rs.X), rs.X)
+					}
+					return true
+				})
 				return true
 			})
-			return true
-		})
+		}
 		// a collector drained by a body loop that sits inside a deferred closure is listed under both; the defer wins
 		for o := range drainDefer {
 			delete(drainBody, o)
@@ -726,8 +774,8 @@ func c02Unlink(p *Prog, r *Report) {
 					return true
 				}
 			}
-			if as, ok := n.Ast.(*ast.AssignStmt); ok && len(as.Lhs) == 1 && len(as.Rhs) == 1 && collectors[objOf(info, as.Lhs[0])] {
-				co := objOf(info, as.Lhs[0])
+			if as, ok := n.Ast.(*ast.AssignStmt); ok && len(as.Lhs) == 1 && len(as.Rhs) == 1 && n.Synth == "" && collectors[f.rawPath(as.Lhs[0])] {
+				co := f.rawPath(as.Lhs[0])
 				if c, ok := ast.Unparen(as.Rhs[0]).(*ast.CallExpr); ok {
 					if id, ok := c.Fun.(*ast.Ident); ok && id.Name == "append" {
 						for _, a := range c.Args[1:] {
